@@ -1,6 +1,6 @@
 // C16 harness, part 2: amgcl::static_matrix<Q,N,M> arithmetic (N, M <= 4) at the exact rational type Q.
 // Ops (the same text is fed to the Lean model, lean/Amgcl/Driver/Direct.lean):
-//   sm_lin N M c a b | sm_mul N P M a b | sm_assoc N P M L a b c | sm_distrib N P M a b c | sm_inner N M x y | sm_inverse N a
+//   direct_sm_lin N M c a b | direct_sm_mul N P M a b | direct_sm_assoc N P M L a b c | direct_sm_distrib N P M a b c | direct_sm_inner N M x y | direct_sm_inverse N a
 // Oracles: entrywise / dense recomputation and the matrix algebra identities, evaluated with the real operators.
 #include "direct_common.hpp"
 #include <amgcl/value_type/static_matrix.hpp>
@@ -21,7 +21,7 @@ template <int N, int M> static bool sm_eq_dense(const amgcl::static_matrix<Q,N,M
 static Result run_sm(const std::string &op, Cur &c) {
     Result r; r.nontrivial = true; r.tag(op);
     namespace m = amgcl::math;
-    if (op == "sm_lin") {
+    if (op == "direct_sm_lin") {
         long N = c.nat(), M = c.nat();
         dispatch<1,4>(N, [&](auto n_) { dispatch<1,4>(M, [&](auto m_) {
             constexpr int N = decltype(n_)::value, M = decltype(m_)::value; typedef amgcl::static_matrix<Q,N,M> SM;
@@ -37,7 +37,7 @@ static Result run_sm(const std::string &op, Cur &c) {
             Q fro(0); for (int i = 0; i < N * M; ++i) fro += a(i) * a(i); if (!qeq(nrm, vq::sqrt(fro))) r.fail("norm != sqrt(sum a_i^2)");
             Line l; print_sm(l, sum); print_sm(l, dif); print_sm(l, sc); print_sm(l, ng); print_sm(l, ad); l << z << nrm; r.out = l.get();
         }); });
-    } else if (op == "sm_mul") {
+    } else if (op == "direct_sm_mul") {
         long N = c.nat(), P = c.nat(), M = c.nat();
         dispatch<1,4>(N, [&](auto n_) { dispatch<1,4>(P, [&](auto p_) { dispatch<1,4>(M, [&](auto m_) {
             constexpr int N = decltype(n_)::value, P = decltype(p_)::value, M = decltype(m_)::value;
@@ -49,7 +49,7 @@ static Result run_sm(const std::string &op, Cur &c) {
             if constexpr (P == M) if (!sm_eq(a * m::identity<amgcl::static_matrix<Q,M,M>>(), a)) r.fail("a*I != a");
             Line l; print_sm(l, ab); print_sm(l, abt); r.out = l.get();
         }); }); });
-    } else if (op == "sm_assoc") {
+    } else if (op == "direct_sm_assoc") {
         long N = c.nat(), P = c.nat(), M = c.nat(), L = c.nat();
         auto body = [&](auto n_, auto p_, auto m_, auto l_) {
             constexpr int N = decltype(n_)::value, P = decltype(p_)::value, M = decltype(m_)::value, L = decltype(l_)::value;
@@ -60,7 +60,7 @@ static Result run_sm(const std::string &op, Cur &c) {
         };
         if (N == 4 && P == 4 && M == 4 && L == 4) { std::integral_constant<int,4> f; body(f, f, f, f); }
         else dispatch<1,3>(N, [&](auto n_) { dispatch<1,3>(P, [&](auto p_) { dispatch<1,3>(M, [&](auto m_) { dispatch<1,3>(L, [&](auto l_) { body(n_, p_, m_, l_); }); }); }); });
-    } else if (op == "sm_distrib") {
+    } else if (op == "direct_sm_distrib") {
         long N = c.nat(), P = c.nat(), M = c.nat();
         dispatch<1,4>(N, [&](auto n_) { dispatch<1,4>(P, [&](auto p_) { dispatch<1,4>(M, [&](auto m_) {
             constexpr int N = decltype(n_)::value, P = decltype(p_)::value, M = decltype(m_)::value;
@@ -70,7 +70,7 @@ static Result run_sm(const std::string &op, Cur &c) {
             if (!sm_eq(m::adjoint(b + d), m::adjoint(b) + m::adjoint(d))) r.fail("(b+c)^T != b^T + c^T");
             Line l; print_sm(l, l1); print_sm(l, r1); print_sm(l, l2); r.out = l.get();
         }); }); });
-    } else if (op == "sm_inner") {
+    } else if (op == "direct_sm_inner") {
         long N = c.nat(), M = c.nat();
         dispatch<1,4>(N, [&](auto n_) { dispatch<1,4>(M, [&](auto m_) {
             constexpr int N = decltype(n_)::value, M = decltype(m_)::value;
@@ -79,7 +79,7 @@ static Result run_sm(const std::string &op, Cur &c) {
             if constexpr (M == 1) { Q ip = m::inner_product(x, y); if (!qeq(ip, xty(0,0))) r.fail("inner_product != x^T y"); r.out = (Line() << ip).get(); }
             else { auto ip = m::inner_product(x, y); if (!sm_eq(ip, xty)) r.fail("inner_product != x^T y"); Line l; print_sm(l, ip); r.out = l.get(); }
         }); });
-    } else if (op == "sm_inverse") {
+    } else if (op == "direct_sm_inverse") {
         long N = c.nat();
         dispatch<1,4>(N, [&](auto n_) {
             constexpr int N = decltype(n_)::value; typedef amgcl::static_matrix<Q,N,N> SM;
@@ -96,7 +96,7 @@ static Result run_sm(const std::string &op, Cur &c) {
 static Result execute(const Toks &t) {
     Cur c(t);
     const std::string &op = t[0];
-    if (op == "sm_lin" || op == "sm_mul" || op == "sm_assoc" || op == "sm_distrib" || op == "sm_inner" || op == "sm_inverse") return run_sm(op, c);
+    if (op == "direct_sm_lin" || op == "direct_sm_mul" || op == "direct_sm_assoc" || op == "direct_sm_distrib" || op == "direct_sm_inner" || op == "direct_sm_inverse") return run_sm(op, c);
     Result r; r.out = "bad-op"; return r;
 }
 
@@ -107,20 +107,20 @@ static void generate(Rng &rng, const Opts &o, std::vector<std::string> &lines) {
     long scale = o.cases > 0 ? o.cases : (T ? 10 : 1);
     for (long k = 0; k < 60 * scale; ++k) {
         long N = rng.range(1, 4), P = rng.range(1, 4), M = rng.range(1, 4), L4 = rng.range(1, 4);
-        { Line l; l << "sm_lin" << N << M << rng.rat(4); put_rats(rng, l, 2 * N * M); lines.push_back(l.get()); }
-        { Line l; l << "sm_mul" << N << P << M; put_rats(rng, l, N * P + P * M); lines.push_back(l.get()); }
+        { Line l; l << "direct_sm_lin" << N << M << rng.rat(4); put_rats(rng, l, 2 * N * M); lines.push_back(l.get()); }
+        { Line l; l << "direct_sm_mul" << N << P << M; put_rats(rng, l, N * P + P * M); lines.push_back(l.get()); }
         { long a = N, b = P, cc = M, d = L4; if (rng.coin(1, 5)) a = b = cc = d = 4; else { a = rng.range(1, 3); b = rng.range(1, 3); cc = rng.range(1, 3); d = rng.range(1, 3); }
-          Line l; l << "sm_assoc" << a << b << cc << d; put_rats(rng, l, a * b + b * cc + cc * d); lines.push_back(l.get()); }
-        { Line l; l << "sm_distrib" << N << P << M; put_rats(rng, l, N * P + 2 * P * M); lines.push_back(l.get()); }
-        { Line l; l << "sm_inner" << N << M; put_rats(rng, l, 2 * N * M); lines.push_back(l.get()); }
+          Line l; l << "direct_sm_assoc" << a << b << cc << d; put_rats(rng, l, a * b + b * cc + cc * d); lines.push_back(l.get()); }
+        { Line l; l << "direct_sm_distrib" << N << P << M; put_rats(rng, l, N * P + 2 * P * M); lines.push_back(l.get()); }
+        { Line l; l << "direct_sm_inner" << N << M; put_rats(rng, l, 2 * N * M); lines.push_back(l.get()); }
         { std::vector<Q> A(N * N); for (int tries = 0; tries < 50; ++tries) { for (auto &x : A) x = rng.coin(1, 4) ? Q(0) : rng.rat(5); if (dense_rank(rm_dense(N, N, A)) == N) break; for (long i = 0; i < N; ++i) A[i * N + i] += Q(7); }
-          if (dense_rank(rm_dense(N, N, A)) == N) { Line l; l << "sm_inverse" << N; for (auto &v : A) l << v; lines.push_back(l.get()); } }
+          if (dense_rank(rm_dense(N, N, A)) == N) { Line l; l << "direct_sm_inverse" << N; for (auto &v : A) l << v; lines.push_back(l.get()); } }
     }
     // malformed stream: both sides must answer bad-input
-    lines.push_back("sm_mul 5 1 1 1 1 1 1 1");            // dimension out of range
-    lines.push_back("sm_lin 2 2 1 1 2 3 4 1 2 3");        // too few entries
-    lines.push_back("sm_assoc 4 4 4 3 1 1");              // shape outside the instantiated set
-    lines.push_back("sm_inverse 2 1 2 3");                // too few entries
+    lines.push_back("direct_sm_mul 5 1 1 1 1 1 1 1");            // dimension out of range
+    lines.push_back("direct_sm_lin 2 2 1 1 2 3 4 1 2 3");        // too few entries
+    lines.push_back("direct_sm_assoc 4 4 4 3 1 1");              // shape outside the instantiated set
+    lines.push_back("direct_sm_inverse 2 1 2 3");                // too few entries
 }
 
 VH_MAIN(generate, execute)
